@@ -533,6 +533,10 @@ pixman_transform_rotate (struct pixman_transform *forward,
 {
     struct pixman_transform t;
 
+    /* -s is not representable */
+    if (s == (pixman_fixed_t) pixman_min_fixed_48_16)
+	return FALSE;
+
     if (forward)
     {
 	pixman_transform_init_rotate (&t, c, s);
@@ -582,6 +586,11 @@ pixman_transform_translate (struct pixman_transform *forward,
 
     if (reverse)
     {
+	/* -tx or -ty is not representable */
+	if (tx == (pixman_fixed_t) pixman_min_fixed_48_16 ||
+	    ty == (pixman_fixed_t) pixman_min_fixed_48_16)
+	    return FALSE;
+
 	pixman_transform_init_translate (&t, -tx, -ty);
 
 	if (!pixman_transform_multiply (reverse, reverse, &t))
